@@ -133,19 +133,16 @@ func fieldOrder(c *Ctx, p *Prog, m *Model, mode Mode, rule string, want []string
 	}
 	nPaths := 0
 	bad := ""
-	okPaths := enumPathsMode(pi, mode, 512, func(path []*ssa.BasicBlock) {
+	anchor := func(fn *ssa.Function) bool { return interesting[nm(fn)] }
+	seqs, okPaths := callSeqsMode(p, pi, mode, anchor, map[*ssa.Function]bool{}, 0)
+	for _, seq := range seqs {
 		nPaths++
-		var seq []string
-		for _, cs := range pathCalls(path) {
-			if cal := calleeOf(cs); cal != nil && interesting[nm(cal)] {
-				seq = append(seq, nm(cal))
-			}
-		}
 		if len(seq) <= 2 {
-			return // the blank-line shortcut
+			continue // the blank-line shortcut
 		}
 		// compare with want, optional entries may be absent
 		i := 0
+		good := true
 		for _, w := range want {
 			if i < len(seq) && seq[i] == w {
 				i++
@@ -154,13 +151,13 @@ func fieldOrder(c *Ctx, p *Prog, m *Model, mode Mode, rule string, want []string
 			if optional[w] {
 				continue
 			}
-			bad = fmt.Sprintf("the fields are produced in the order %v, expected %v", seq, want)
-			return
+			good = false
+			break
 		}
-		if i != len(seq) {
+		if !good || i != len(seq) {
 			bad = fmt.Sprintf("the fields are produced in the order %v, expected %v", seq, want)
 		}
-	})
+	}
 	key := fmt.Sprintf("order[%s]", mode)
 	switch {
 	case !okPaths:
@@ -170,6 +167,70 @@ func fieldOrder(c *Ctx, p *Prog, m *Model, mode Mode, rule string, want []string
 	default:
 		r.Ok(rule, key, p.FuncPos(pi), "on all %d feasible paths the record is built in the order %v", nPaths, want)
 	}
+}
+
+// callSeqsMode returns the distinct sequences of anchor calls over the mode-feasible acyclic paths of fn; a
+// call to a private repository function that is not an anchor itself is replaced by that function's own
+// sequences (so the order rule does not depend on how the record builder is cut into helpers).
+func callSeqsMode(p *Prog, fn *ssa.Function, mode Mode, anchor func(*ssa.Function) bool, stack map[*ssa.Function]bool, depth int) ([][]string, bool) {
+	seen := map[string]bool{}
+	var out [][]string
+	okAll := true
+	stack[fn] = true
+	defer delete(stack, fn)
+	ok := enumPathsMode(fn, mode, 4096, func(path []*ssa.BasicBlock) {
+		cur := [][]string{nil}
+		for _, cs := range pathCalls(path) {
+			cal := calleeOf(cs)
+			if cal == nil {
+				continue
+			}
+			if _, isDefer := cs.(*ssa.Defer); isDefer {
+				continue
+			}
+			if anchor(cal) {
+				for i := range cur {
+					cur[i] = append(append([]string(nil), cur[i]...), nm(cal))
+				}
+				continue
+			}
+			if cal.Pkg != p.Slog || len(cal.Blocks) == 0 || stack[cal] || depth >= 4 || cal.Object() == nil || cal.Object().Exported() {
+				continue
+			}
+			sub, ok2 := callSeqsMode(p, cal, mode, anchor, stack, depth+1)
+			if !ok2 {
+				okAll = false
+			}
+			nonEmpty := false
+			for _, sq := range sub {
+				if len(sq) > 0 {
+					nonEmpty = true
+				}
+			}
+			if !nonEmpty {
+				continue
+			}
+			var next [][]string
+			for _, c0 := range cur {
+				for _, sq := range sub {
+					next = append(next, append(append([]string(nil), c0...), sq...))
+				}
+			}
+			if len(next) > 256 {
+				okAll = false
+				next = next[:256]
+			}
+			cur = next
+		}
+		for _, c0 := range cur {
+			k := strings.Join(c0, ",")
+			if !seen[k] {
+				seen[k] = true
+				out = append(out, c0)
+			}
+		}
+	})
+	return out, ok && okAll
 }
 
 // enumPathsMode enumerates acyclic paths following only mode-feasible successors.
@@ -236,7 +297,7 @@ func checkC04(c *Ctx) {
 		c04Keys(c, p, m)
 		c09Pooled(c, p, m, "R04.7", []Mode{jsonMode})
 	}
-	c.Floor["R04.2"] = 5
+	c.Floor["R04.2"] = 2
 	c.Floor["R04.1"] = 4
 }
 
@@ -390,6 +451,13 @@ func c04Tokens(c *Ctx, p *Prog, m *Model, mr *ModeReach) {
 		cal := calleeOf(cs)
 		if cal == nil || nm(cal) != "pcAppendStringValue" && nm(cal) != "pcAppendString" {
 			continue
+		}
+		top := ce.Fn
+		for top.Parent() != nil {
+			top = top.Parent()
+		}
+		if nm(top) == "appendEscapedJSONString" {
+			continue // pieces of escape sequences inside a quoted string: their alphabet is decided by R04.1
 		}
 		key := fmt.Sprintf("literal:%s:%q", shortName(ce.Fn), ce.Text)
 		r.Check(lit[ce.Text], "R04.3", key, p.Pos(instrPos(ce.Instr)), "a JSON literal", fmt.Sprintf("in JSON mode %s writes the bare text %q as a value, which is not a JSON token", shortName(ce.Fn), ce.Text))
@@ -548,14 +616,15 @@ func c04Brackets(c *Ctx, p *Prog, m *Model, mr *ModeReach) {
 	// separator not after an opening brace
 	comma := p.Method(p.Slog, "PrintCtx", "pcAppendComma")
 	found, guarded := false, false
-	for _, cs := range callsTo(sa, comma) {
-		if !mr.Blocks[sa][cs.Block()] {
+	for _, site := range modeRegionCalls(p, mr, sa) {
+		cs := site.Instr
+		if calleeOf(cs) != comma {
 			continue
 		}
 		found = true
 		// some predecessor decides, by comparing the last byte written with '{', whether the separator is written
 		for _, pr := range cs.Block().Preds {
-			if iff := ifOf(pr); iff != nil && mr.Blocks[sa][pr] {
+			if iff := ifOf(pr); iff != nil && mr.Blocks[site.Fn][pr] {
 				cond, _ := normCond(iff.Cond)
 				if bo, ok := cond.(*ssa.BinOp); ok {
 					if v, ok := constInt(bo.Y); ok && v == '{' && pr.Succs[0] != pr.Succs[1] {
@@ -592,13 +661,35 @@ func c04Keys(c *Ctx, p *Prog, m *Model) {
 		}
 		wantS := constant.StringVal(cv)
 		found := false
-		for _, cs := range callsIn(fn) {
-			for _, a := range cs.Common().Args {
-				if s, ok := constString(a); ok && s == wantS {
-					found = true
+		// (the printer and the private helpers it is cut into)
+		for g := range staticReach([]*ssa.Function{fn}, func(f *ssa.Function) bool {
+			return f.Pkg != p.Slog || (f != fn && (f.Object() == nil || f.Object().Exported() || want[nm(f)] != ""))
+		}) {
+			for _, cs := range callsIn(g) {
+				for _, a := range cs.Common().Args {
+					if s, ok := constString(a); ok && s == wantS {
+						found = true
+					}
 				}
 			}
 		}
 		r.Check(found, "R04.6", "key:"+fnName, p.FuncPos(fn), "writes its field under "+cn+" ("+wantS+")", fnName+" does not write its field under the key "+wantS)
 	}
+}
+
+// modeRegionCalls: the calls of fn and of the private helpers it is cut into (two levels), restricted to the
+// blocks feasible in mr's mode.
+func modeRegionCalls(p *Prog, mr *ModeReach, fn *ssa.Function) []CallSite {
+	te := newTermEval(p)
+	te.blockOK = func(f *ssa.Function, b *ssa.BasicBlock) bool { return mr.Blocks[f] != nil && mr.Blocks[f][b] }
+	ph := privateHelper(p)
+	prims := map[string]bool{"pcAppendByte": true, "pcAppendString": true, "pcAppendStringValue": true, "pcAppendStringKey": true, "pcAppendComma": true, "pcAppendColon": true, "pcAppendRune": true}
+	sites, _ := te.callsOf(fn, func(f *ssa.Function) bool { return ph(f) && !prims[nm(f)] })
+	var out []CallSite
+	for _, s := range sites {
+		if len(s.Chain) <= 2 {
+			out = append(out, s)
+		}
+	}
+	return out
 }
